@@ -1,3 +1,644 @@
 package main
 
-func runC13() {}
+// C13 — outbound channels connect to where the matching inbound channel was bound.
+// Oracle: cross-check between the CONFIGURE arguments each fake executor received,
+// the host each task was launched on and the ports of its ACCEPT.
+
+import (
+	"fmt"
+	"os"
+	"regexp"
+	"sort"
+	"strings"
+	"time"
+
+	pb "github.com/AliceO2Group/Control/core/protos"
+
+	"verif/harness/coresim"
+	simmesos "verif/harness/sim/mesos"
+	"verif/harness/vlib"
+)
+
+type c13Scenario struct {
+	Index   int       `json:"index"`
+	Flavour string    `json:"flavour"`
+	Hosts   int       `json:"hosts"`
+	Root    *roleSpec `json:"workflow"`
+	Fault   string    `json:"fault,omitempty"` // "" | unmatched-* | alias-conflict-*
+	Notes   []string  `json:"notes,omitempty"`
+}
+
+var c13Flavours = []string{
+	"paths", "alias", "unmatched-role", "override-inbound", "explicit", "alias-conflict", "parent-expr", "ipc",
+	"unmatched-channel", "override-outbound", "aggregator-level", "alias-conflict", "unmatched-alias", "mixed",
+	"alias-same-task", "template-connect-without-target", "inbound-explicit", "mixed", "override-inbound", "unmatched-role",
+}
+
+var c13Types = []string{"push", "pull", "pub", "sub"}
+var c13Transports = []string{"", "default", "zeromq", "nanomsg", "shmem"}
+
+type c13In struct {
+	task *roleSpec
+	ch   chanSpec
+}
+
+// inboundOf / outboundOf: the channels a task role ends up with: declarations on the
+// role chain (the nearest one per name) over the template's.
+func inboundOf(tr *roleSpec) []chanSpec { return mergedInbound(tr) }
+
+func outboundOf(tr *roleSpec) []chanSpec {
+	seen := map[string]bool{}
+	var out []chanSpec
+	for _, p := range tr.chain() {
+		for _, ch := range p.Connect {
+			if !seen[ch.Name] {
+				seen[ch.Name] = true
+				out = append(out, ch)
+			}
+		}
+	}
+	for _, ch := range tr.Task.Connect {
+		if !seen[ch.Name] {
+			seen[ch.Name] = true
+			ch.Target = "" // a template-level target is not a thing
+			out = append(out, ch)
+		}
+	}
+	return out
+}
+
+func transportOr(t string) string {
+	if t == "" {
+		return "default"
+	}
+	return t
+}
+
+func c13Gen(c *vlib.Ctx, idx int) c13Scenario {
+	r := scRand(c, 1313, idx)
+	fl := c13Flavours[idx%len(c13Flavours)]
+	sc := c13Scenario{Index: idx, Flavour: fl, Hosts: 1 + r.Intn(3)}
+	wf := fmt.Sprintf("c13w%d", idx)
+	root := &roleSpec{Name: wf, Defaults: []kv{{"hosts", `["host1"]`}, {"deploy_timeout", "60s"}}}
+	sc.Root = root
+	nTasks := 2 + r.Intn(5)
+	groups := map[int]*roleSpec{}
+	var tasks []*roleSpec
+	for t := 0; t < nTasks; t++ {
+		h := r.Intn(sc.Hosts)
+		host := fmt.Sprintf("host%d", h+1)
+		parent := root
+		if g, ok := groups[h]; ok && r.Intn(4) != 0 {
+			parent = g
+		} else if !ok && r.Intn(3) != 0 {
+			g := &roleSpec{Name: fmt.Sprintf("g%d", h+1)}
+			if r.Intn(4) == 0 {
+				root.Children = append(root.Children, &roleSpec{Name: fmt.Sprintf("m%d", h+1), Children: []*roleSpec{g}})
+			} else {
+				root.Children = append(root.Children, g)
+			}
+			groups[h] = g
+			parent = g
+		}
+		tpl := &tplSpec{Name: fmt.Sprintf("%s-t%d", wf, t), Mode: pick(r, "fairmq", "direct")}
+		role := &roleSpec{Name: fmt.Sprintf("t%d", t), Task: tpl, Critical: true, Constraints: []kv{{"machine_id", host}}}
+		parent.Children = append(parent.Children, role)
+		tasks = append(tasks, role)
+	}
+	root.link(nil)
+	newIn := func(name string) chanSpec {
+		ch := chanSpec{Name: name, Type: c13Types[r.Intn(4)], Transport: c13Transports[r.Intn(5)]}
+		switch r.Intn(4) {
+		case 0:
+			ch.Addressing = "ipc"
+		case 1:
+			ch.Addressing = "tcp"
+		}
+		if fl == "ipc" && r.Intn(3) != 0 {
+			ch.Addressing = "ipc"
+		}
+		return ch
+	}
+	// inbound channels
+	chanSeq := 0
+	for _, tr := range tasks {
+		n := r.Intn(3)
+		if tr == tasks[0] && n == 0 {
+			n = 1
+		}
+		for b := 0; b < n; b++ {
+			ch := newIn(fmt.Sprintf("in%d", chanSeq))
+			chanSeq++
+			if r.Intn(2) == 0 {
+				tr.Task.Bind = append(tr.Task.Bind, ch)
+			} else {
+				tr.Bind = append(tr.Bind, ch)
+			}
+		}
+	}
+	if fl == "aggregator-level" || r.Intn(6) == 0 {
+		// declared once on an aggregator, bound by every task below it
+		if g := firstGroup(groups); g != nil {
+			g.Bind = append(g.Bind, newIn("gin"))
+			sc.Notes = append(sc.Notes, "bind 'gin' declared on aggregator "+g.Name)
+		}
+	}
+	if fl == "override-inbound" {
+		// same name at template and role level with every judged field different; and, if the role has an
+		// aggregator above it, a third farther declaration
+		tr := tasks[r.Intn(len(tasks))]
+		tr.Task.Bind = append(tr.Task.Bind, chanSpec{Name: "ovr", Type: "pull", Transport: "zeromq", Addressing: "tcp"})
+		tr.Bind = append(tr.Bind, chanSpec{Name: "ovr", Type: "pub", Transport: "shmem", Addressing: "ipc"})
+		if tr.parent != root && r.Intn(2) == 0 {
+			tr.parent.Bind = append(tr.parent.Bind, chanSpec{Name: "ovr", Type: "sub", Transport: "nanomsg", Addressing: "tcp"})
+		}
+		sc.Notes = append(sc.Notes, "inbound 'ovr' of "+tr.path+" is declared at template and role level")
+	}
+	if fl == "inbound-explicit" {
+		tr := tasks[r.Intn(len(tasks))]
+		addr := pick(r, "tcp://*:47000", "ipc://@c13-explicit", "tcp://*:9555")
+		tr.Bind = append(tr.Bind, chanSpec{Name: "fixed", Type: "push", Transport: "zeromq", Target: addr})
+		sc.Notes = append(sc.Notes, "inbound 'fixed' of "+tr.path+" has the explicit bind address "+addr)
+	}
+	// aliases
+	allIn := func() []c13In {
+		var out []c13In
+		for _, tr := range tasks {
+			for _, ch := range inboundOf(tr) {
+				out = append(out, c13In{tr, ch})
+			}
+		}
+		return out
+	}
+	setGlobal := func(tr *roleSpec, name, alias string) {
+		for _, p := range tr.chain() {
+			for i := range p.Bind {
+				if p.Bind[i].Name == name {
+					p.Bind[i].Global = alias
+					return
+				}
+			}
+		}
+		for i := range tr.Task.Bind {
+			if tr.Task.Bind[i].Name == name {
+				tr.Task.Bind[i].Global = alias
+			}
+		}
+	}
+	ins := allIn()
+	aliasN := 0
+	for _, in := range ins {
+		if in.ch.Name == "gin" || in.ch.Name == "ovr" {
+			continue // an alias on a channel bound by several tasks would be a conflict by construction
+		}
+		if r.Intn(4) == 0 || ((fl == "alias" || fl == "alias-conflict" || fl == "unmatched-alias") && aliasN == 0) {
+			aliasN++
+			setGlobal(in.task, in.ch.Name, fmt.Sprintf("al%d", aliasN))
+		}
+	}
+	ins = allIn()
+	// outbound channels aimed at existing inbound ones
+	target := func(from *roleSpec, in c13In) string {
+		if in.ch.Global != "" && (r.Intn(2) == 0 || fl == "alias") {
+			return "::" + in.ch.Global
+		}
+		lit := in.task.path + ":" + in.ch.Name
+		if fl == "parent-expr" || r.Intn(3) == 0 {
+			// {{ Up(k).Path }} of the lowest common ancestor
+			fc := from.chain()
+			for k := 1; k < len(fc); k++ {
+				anc := fc[k]
+				if strings.HasPrefix(in.task.path, anc.path+".") {
+					rest := strings.TrimPrefix(in.task.path, anc.path)
+					if k == 1 {
+						return "{{ Parent().Path }}" + rest + ":" + in.ch.Name
+					}
+					return fmt.Sprintf("{{ Up(%d).Path }}%s:%s", k, rest, in.ch.Name)
+				}
+			}
+		}
+		return lit
+	}
+	outSeq := 0
+	for _, tr := range tasks {
+		n := r.Intn(3)
+		if tr == tasks[len(tasks)-1] && n == 0 {
+			n = 1
+		}
+		for o := 0; o < n && len(ins) > 0; o++ {
+			in := ins[r.Intn(len(ins))]
+			ch := chanSpec{Name: fmt.Sprintf("out%d", outSeq), Type: c13Types[r.Intn(4)], Transport: c13Transports[r.Intn(5)]}
+			outSeq++
+			if in.ch.Target != "" && fl != "inbound-explicit" {
+				continue
+			}
+			ch.Target = target(tr, in)
+			if (fl == "explicit" || r.Intn(6) == 0) && o == 0 {
+				ch.Target = pick(r, "tcp://somehost.example:5555", "ipc:///tmp/c13-pipe", "ipc://@abstract-name", "tcp://10.0.0.7:9000")
+			}
+			tr.Connect = append(tr.Connect, ch)
+		}
+	}
+	last := tasks[len(tasks)-1]
+	switch fl {
+	case "inbound-explicit":
+		// somebody connects to the channel with the explicit bind address by its role path
+		for _, in := range ins {
+			if in.ch.Name == "fixed" {
+				last.Connect = append(last.Connect, chanSpec{Name: "tofixed", Type: "pull", Target: in.task.path + ":fixed"})
+			}
+		}
+	case "override-outbound":
+		in := ins[r.Intn(len(ins))]
+		last.Task.Connect = append(last.Task.Connect, chanSpec{Name: "ovo", Type: "pull", Transport: "zeromq"})
+		last.Connect = append(last.Connect, chanSpec{Name: "ovo", Type: "sub", Transport: "nanomsg", Target: in.task.path + ":" + in.ch.Name})
+		sc.Notes = append(sc.Notes, "outbound 'ovo' of "+last.path+" is declared at template level (no target) and at role level")
+	case "aggregator-level":
+		if g := firstGroup(groups); g != nil {
+			in := ins[r.Intn(len(ins))]
+			g.Connect = append(g.Connect, chanSpec{Name: "gout", Type: "sub", Target: in.task.path + ":" + in.ch.Name})
+		}
+	case "unmatched-role":
+		last.Connect = append(last.Connect, chanSpec{Name: "lost", Type: "pull", Target: wf + ".nosuchrole:" + ins[0].ch.Name})
+		sc.Fault = "unmatched-role"
+	case "unmatched-channel":
+		last.Connect = append(last.Connect, chanSpec{Name: "lost", Type: "pull", Target: ins[0].task.path + ":nosuchchannel"})
+		sc.Fault = "unmatched-channel"
+	case "unmatched-alias":
+		last.Connect = append(last.Connect, chanSpec{Name: "lost", Type: "pull", Target: "::nosuchalias"})
+		sc.Fault = "unmatched-alias"
+	case "template-connect-without-target":
+		last.Task.Connect = append(last.Task.Connect, chanSpec{Name: "lost", Type: "pull"})
+		sc.Fault = "unmatched-empty-target"
+	case "alias-conflict":
+		// a second task claims an alias that is already taken
+		var first *c13In
+		for i := range ins {
+			if ins[i].ch.Global != "" {
+				first = &ins[i]
+				break
+			}
+		}
+		if first != nil {
+			for _, tr := range tasks {
+				if tr != first.task {
+					ch := newIn("dup")
+					ch.Global = first.ch.Global
+					tr.Bind = append(tr.Bind, ch)
+					sc.Fault = "alias-conflict-two-tasks"
+					break
+				}
+			}
+			if sc.Fault == "" { // a single task: fall back to two channels of the same task
+				ch := newIn("dup")
+				ch.Global = first.ch.Global
+				first.task.Bind = append(first.task.Bind, ch)
+				sc.Fault = "alias-conflict-same-task"
+			}
+		}
+	case "alias-same-task":
+		tr := tasks[r.Intn(len(tasks))]
+		a, b := newIn("twinA"), newIn("twinB")
+		a.Global, b.Global = "twin", "twin"
+		tr.Bind = append(tr.Bind, a)
+		tr.Task.Bind = append(tr.Task.Bind, b)
+		sc.Fault = "alias-conflict-same-task"
+	}
+	root.link(nil)
+	return sc
+}
+
+func runC13() {
+	c := vlib.Start("C13")
+	defer c.Finish()
+	n := 40
+	if c.Tier == "thorough" {
+		n = 400
+	}
+	lo, hi := only(c.Slice(n))
+	parallel(lo, hi, 3, func(i int) { c13Run(c, i) })
+}
+
+type c13TaskObs struct {
+	Role      string            `json:"role"`
+	Host      string            `json:"host"`
+	Mode      string            `json:"mode"`
+	Ports     []uint64          `json:"ports"`
+	Control   uint64            `json:"control_port"`
+	Configure map[string]string `json:"configure_chans,omitempty"`
+}
+
+type c13Obs struct {
+	Scenario c13Scenario  `json:"scenario"`
+	Steps    []string     `json:"steps"`
+	Tasks    []c13TaskObs `json:"tasks"`
+}
+
+var tcpBoundRe = regexp.MustCompile(`^tcp://\*:(\d+)$`)
+var tcpAddrRe = regexp.MustCompile(`^tcp://([^:]+):(\d+)$`)
+
+func c13Run(c *vlib.Ctx, idx int) {
+	sc := c13Gen(c, idx)
+	id := c.Case(map[string]interface{}{"index": idx, "flavour": sc.Flavour, "fault": sc.Fault, "hosts": sc.Hosts, "workflow": sc.Root})
+	if idx%11 == 0 {
+		c.Sample(map[string]interface{}{"index": idx, "flavour": sc.Flavour, "fault": sc.Fault, "workflow": sc.Root})
+	}
+	obs := &c13Obs{Scenario: sc}
+	var agents []*simmesos.Agent
+	dets := map[string][]string{}
+	detNames := []string{"TST", "ITS", "TPC"}
+	for j := 1; j <= sc.Hosts; j++ {
+		h := fmt.Sprintf("host%d", j)
+		agents = append(agents, &simmesos.Agent{ID: "agent-" + h, Hostname: h, Attributes: map[string]string{"machine_id": h}, CPU: 16, Mem: 16384, Ports: [][2]uint64{{9000, 9200}, {30000, 30200}}})
+		dets[detNames[j-1]] = []string{h}
+	}
+	s, err := coresim.Start(coresim.Options{Agents: agents, Detectors: dets, Files: sc.Root.files()})
+	if err != nil {
+		c.Inconclusive("coresim start: " + truncate(err.Error(), 4000))
+		return
+	}
+	s.Master.OnLaunch = func(t *simmesos.LaunchedTask) simmesos.LaunchPlan {
+		return simmesos.LaunchPlan{Kind: "running", Delay: 30 * time.Millisecond}
+	}
+	s.Master.OfferDelay = offerDelay()
+	defer func() {
+		if debugOn() {
+			fmt.Println(sc.Root.files()["workflows/"+sc.Root.Name+".yaml"])
+			fmt.Println(strings.Join(obs.Steps, "\n"))
+			fmt.Println(jsonS(obs.Tasks))
+		}
+		finishSim(c, s, id, obs)
+		s.Close()
+	}()
+	ctx, cancel := coresim.Ctx(150 * time.Second)
+	t0 := time.Now()
+	_, cerr := s.Client.NewEnvironment(ctx, &pb.NewEnvironmentRequest{WorkflowTemplate: sc.Root.Name, Vars: map[string]string{}})
+	cancel()
+	msg := grpcMsg(cerr)
+	obs.Steps = append(obs.Steps, fmt.Sprintf("NewEnvironment err=%q in %s", truncate(msg, 500), time.Since(t0).Round(time.Millisecond)))
+	if d := time.Since(t0); d > 30*time.Second {
+		fmt.Fprintf(os.Stderr, "C13 scenario %d (%s) slow: %s\n", idx, sc.Flavour, strings.Join(obs.Steps, " | "))
+	}
+	c.Count("environments_driven", 1)
+	viol := func(rule, class, detail string) {
+		c.Violation(rule, class, fmt.Sprintf("%s [scenario %d, %s]", detail, idx, sc.Flavour), id, obs)
+	}
+	byPath := map[string]*simmesos.LaunchedTask{}
+	cfgOf := map[string]map[string]string{}
+	mtasks := s.Master.Tasks()
+	for i := range mtasks {
+		t := &mtasks[i]
+		byPath[t.RolePath] = t
+		to := c13TaskObs{Role: t.RolePath, Host: t.Hostname, Mode: t.Mode, Ports: t.Ports, Control: t.ControlPort}
+		for _, cmd := range t.Commands {
+			if cmd.Event == "CONFIGURE" {
+				cfgOf[t.RolePath] = cmd.Arguments
+				to.Configure = map[string]string{}
+				for k, v := range cmd.Arguments {
+					if strings.HasPrefix(k, "chans.") && (strings.HasSuffix(k, ".address") || strings.HasSuffix(k, ".method") || strings.HasSuffix(k, ".transport") || strings.HasSuffix(k, ".type") || strings.HasSuffix(k, ".numSockets")) {
+						to.Configure[k] = v
+					}
+				}
+			}
+		}
+		obs.Tasks = append(obs.Tasks, to)
+	}
+	fp := []string{sc.Flavour, sc.Fault, fmt.Sprint(sc.Hosts), fmt.Sprint(len(sc.Root.taskRoles()))}
+	defer func() { c.Nontrivial(vlib.Hash("c13", strings.Join(fp, "|"))) }()
+
+	if sc.Fault != "" {
+		c.Count("faulty_workflows", 1)
+		c.Count("faulty_"+strings.SplitN(sc.Fault, "-", 2)[0], 1)
+		if cerr == nil {
+			switch {
+			case strings.HasPrefix(sc.Fault, "unmatched"):
+				viol("TARGET", "unmatched-accepted/"+strings.TrimPrefix(sc.Fault, "unmatched-"), "the environment was configured although an outbound channel's target matches no inbound channel ("+sc.Fault+")")
+			default:
+				viol("ALIAS", "conflict-accepted/"+strings.TrimPrefix(sc.Fault, "alias-conflict-"), "the environment was configured although two different inbound channels claim the same global alias ("+sc.Fault+")")
+			}
+		} else {
+			if strings.Contains(msg, "DeadlineExceeded") {
+				c.Inconclusive(fmt.Sprintf("scenario %d: NewEnvironment did not return in time", idx))
+				return
+			}
+			c.Count("faulty_workflows_rejected", 1)
+			if len(cfgOf) > 0 {
+				// rejected, but some task was configured all the same (the configuration must fail as a whole: not judged beyond the statement)
+				c.Count("faulty_workflows_rejected_after_some_configure", 1)
+			}
+		}
+		return
+	}
+	if cerr != nil {
+		if strings.Contains(msg, "channel") || strings.Contains(msg, "alias") || strings.Contains(msg, "target") {
+			viol("CONFIGURE-REFUSED", "well-formed-channels", "a workflow whose every target matches exactly one inbound channel and whose aliases are unique was refused: "+truncate(msg, 400))
+		} else {
+			c.Inconclusive(fmt.Sprintf("scenario %d: fault-free creation failed for a reason unrelated to channels: %s", idx, truncate(msg, 300)))
+		}
+		return
+	}
+	c.Count("environments_configured", 1)
+
+	// ---- per task: inbound channels ----
+	type bound struct {
+		addr, transport string
+		task            *simmesos.LaunchedTask
+		spec            chanSpec
+	}
+	boundBy := map[string]bound{}  // "<role path>:<chan>" -> what that task was told to bind
+	aliasBy := map[string][]string{} // alias -> keys
+	get := func(args map[string]string, ch, f string) string { return args["chans."+ch+".0."+f] }
+	for _, tr := range sc.Root.taskRoles() {
+		mt := byPath[tr.path]
+		args := cfgOf[tr.path]
+		if mt == nil || args == nil {
+			c.Inconclusive(fmt.Sprintf("scenario %d: task %s was not launched/configured although the environment was created", idx, tr.path))
+			return
+		}
+		portSet := map[uint64]bool{}
+		for _, p := range mt.Ports {
+			portSet[p] = true
+		}
+		usedPorts := map[uint64]string{}
+		for _, ch := range inboundOf(tr) {
+			c.Count("inbound_channels_checked", 1)
+			key := tr.path + ":" + ch.Name
+			addr := get(args, ch.Name, "address")
+			if get(args, ch.Name, "method") != "bind" || args["chans."+ch.Name+".numSockets"] != "1" {
+				viol("INBOUND", "not-told-to-bind", fmt.Sprintf("task %s: inbound channel %s: method=%q numSockets=%q address=%q", tr.path, ch.Name, get(args, ch.Name, "method"), args["chans."+ch.Name+".numSockets"], addr))
+				continue
+			}
+			if got := get(args, ch.Name, "type"); got != ch.Type {
+				viol("INBOUND", "declaration-not-honoured/type", fmt.Sprintf("task %s: inbound channel %s has type %q, the nearest declaration says %q", tr.path, ch.Name, got, ch.Type))
+			}
+			if got := get(args, ch.Name, "transport"); got != transportOr(ch.Transport) {
+				viol("INBOUND", "declaration-not-honoured/transport", fmt.Sprintf("task %s: inbound channel %s has transport %q, the nearest declaration says %q", tr.path, ch.Name, got, transportOr(ch.Transport)))
+			}
+			switch {
+			case ch.Target != "":
+				c.Count("inbound_explicit_addresses", 1)
+				if addr != ch.Target {
+					viol("EXPLICIT", "inbound-address-altered", fmt.Sprintf("task %s: inbound channel %s declares the bind address %q and was told %q", tr.path, ch.Name, ch.Target, addr))
+				}
+			case ch.Addressing == "ipc":
+				c.Count("inbound_ipc", 1)
+				if !strings.HasPrefix(addr, "ipc://") || len(addr) <= len("ipc://") {
+					viol("INBOUND", "declaration-not-honoured/addressing", fmt.Sprintf("task %s: inbound channel %s is declared with ipc addressing and was told to bind %q", tr.path, ch.Name, addr))
+				}
+			default:
+				c.Count("inbound_tcp", 1)
+				m := tcpBoundRe.FindStringSubmatch(addr)
+				if m == nil {
+					viol("INBOUND", "declaration-not-honoured/addressing", fmt.Sprintf("task %s: inbound channel %s is declared with tcp addressing and was told to bind %q", tr.path, ch.Name, addr))
+					break
+				}
+				var port uint64
+				fmt.Sscan(m[1], &port)
+				if !portSet[port] {
+					viol("INBOUND", "port-not-allocated-at-launch", fmt.Sprintf("task %s: inbound channel %s is told to bind port %d, which is not among the ports of its ACCEPT %v", tr.path, ch.Name, port, mt.Ports))
+				}
+				if port == mt.ControlPort {
+					viol("INBOUND", "port-is-control-port", fmt.Sprintf("task %s: inbound channel %s is told to bind the task's control port %d", tr.path, ch.Name, port))
+				}
+				if prev, dup := usedPorts[port]; dup {
+					viol("INBOUND", "port-shared-by-two-channels", fmt.Sprintf("task %s: inbound channels %s and %s are told to bind the same port %d", tr.path, prev, ch.Name, port))
+				}
+				usedPorts[port] = ch.Name
+			}
+			boundBy[key] = bound{addr, get(args, ch.Name, "transport"), mt, ch}
+			if ch.Global != "" {
+				aliasBy[ch.Global] = append(aliasBy[ch.Global], key)
+			}
+		}
+	}
+	// ---- per task: outbound channels ----
+	for _, tr := range sc.Root.taskRoles() {
+		args := cfgOf[tr.path]
+		for _, ch := range outboundOf(tr) {
+			c.Count("outbound_channels_checked", 1)
+			addr := get(args, ch.Name, "address")
+			if get(args, ch.Name, "method") != "connect" {
+				viol("OUTBOUND", "not-told-to-connect", fmt.Sprintf("task %s: outbound channel %s (target %q): method=%q address=%q", tr.path, ch.Name, ch.Target, get(args, ch.Name, "method"), addr))
+				continue
+			}
+			if got := get(args, ch.Name, "type"); got != ch.Type {
+				viol("OUTBOUND", "declaration-not-honoured/type", fmt.Sprintf("task %s: outbound channel %s has type %q, the nearest declaration says %q", tr.path, ch.Name, got, ch.Type))
+			}
+			if strings.HasPrefix(ch.Target, "tcp://") || strings.HasPrefix(ch.Target, "ipc://") {
+				c.Count("outbound_explicit_addresses", 1)
+				if addr != ch.Target {
+					viol("EXPLICIT", "outbound-address-altered", fmt.Sprintf("task %s: outbound channel %s has the explicit target %q and was given %q", tr.path, ch.Name, ch.Target, addr))
+				}
+				continue
+			}
+			// resolve the target text the way the handbook describes it
+			tgt := ch.Target
+			declaredAt := tr
+			for _, p := range tr.chain() {
+				if _, ok := kvGetChan(p.Connect, ch.Name); ok {
+					declaredAt = p
+					break
+				}
+			}
+			tgt = resolveTargetExpr(tgt, declaredAt)
+			var key string
+			kind := "path"
+			if strings.HasPrefix(tgt, "::") {
+				kind = "alias"
+				ks := aliasBy[strings.TrimPrefix(tgt, "::")]
+				if len(ks) != 1 {
+					c.Inconclusive(fmt.Sprintf("scenario %d: generator error: alias %s has %d owners", idx, tgt, len(ks)))
+					continue
+				}
+				key = ks[0]
+				c.Count("outbound_by_alias", 1)
+			} else {
+				key = tgt
+				if tgt != ch.Target {
+					c.Count("outbound_by_path_expression", 1)
+				} else {
+					c.Count("outbound_by_literal_path", 1)
+				}
+			}
+			b, ok := boundBy[key]
+			if !ok {
+				c.Inconclusive(fmt.Sprintf("scenario %d: generator error: target %q of %s:%s resolves to no inbound channel", idx, tgt, tr.path, ch.Name))
+				continue
+			}
+			cls := kind
+			if b.spec.Target != "" {
+				cls = kind + "+inbound-has-explicit-address"
+			}
+			if b.task.Hostname != byPath[tr.path].Hostname {
+				c.Count("outbound_to_other_host", 1)
+			}
+			want := b.addr
+			if m := tcpBoundRe.FindStringSubmatch(b.addr); m != nil {
+				want = "tcp://" + b.task.Hostname + ":" + m[1]
+			}
+			if addr != want {
+				what := "address"
+				if gm := tcpAddrRe.FindStringSubmatch(addr); gm != nil {
+					if wm := tcpAddrRe.FindStringSubmatch(want); wm != nil {
+						switch {
+						case gm[1] != wm[1] && gm[2] == wm[2]:
+							what = "host"
+						case gm[1] == wm[1] && gm[2] != wm[2]:
+							what = "port"
+						}
+					}
+				}
+				class := fmt.Sprintf("address-differs-from-bound/%s/%s", cls, what)
+				if b.spec.Target != "" {
+					class = "address-differs-from-bound/inbound-has-explicit-address"
+				}
+				viol("OUTBOUND", class, fmt.Sprintf("task %s: outbound channel %s (target %q) was given %q; the inbound channel %s was told to bind %q on host %s, i.e. %q", tr.path, ch.Name, ch.Target, addr, key, b.addr, b.task.Hostname, want))
+			}
+			if got := get(args, ch.Name, "transport"); got != b.transport {
+				viol("OUTBOUND", "transport-differs-from-inbound/"+cls, fmt.Sprintf("task %s: outbound channel %s (target %q) was given transport %q; the inbound side %s uses %q", tr.path, ch.Name, ch.Target, got, key, b.transport))
+			} else if transportOr(ch.Transport) != b.transport {
+				c.Count("outbound_transport_replaced_by_inbound_side", 1)
+			}
+		}
+	}
+}
+
+func kvGetChan(chs []chanSpec, name string) (chanSpec, bool) {
+	for _, ch := range chs {
+		if ch.Name == name {
+			return ch, true
+		}
+	}
+	return chanSpec{}, false
+}
+
+var upRe = regexp.MustCompile(`\{\{ (Parent\(\)|Up\((\d+)\))\.Path \}\}`)
+
+// resolveTargetExpr evaluates {{ Parent().Path }} / {{ Up(n).Path }} relative to the
+// role that declares the channel.
+func resolveTargetExpr(t string, at *roleSpec) string {
+	return upRe.ReplaceAllStringFunc(t, func(m string) string {
+		sm := upRe.FindStringSubmatch(m)
+		k := 1
+		if sm[2] != "" {
+			fmt.Sscan(sm[2], &k)
+		}
+		ch := at.chain()
+		if k < len(ch) {
+			return ch[k].path
+		}
+		return "<no-such-ancestor>"
+	})
+}
+
+func firstGroup(groups map[int]*roleSpec) *roleSpec {
+	ks := []int{}
+	for k := range groups {
+		ks = append(ks, k)
+	}
+	sort.Ints(ks)
+	if len(ks) == 0 {
+		return nil
+	}
+	return groups[ks[0]]
+}
